@@ -18,6 +18,7 @@ def run(ck, fb):
     r12j(ck, fb)
     r12k(ck, fb)
     r12l(ck, fb)
+    r12m(ck, fb)
     ck.borrow('rules.c13', {'R13b': 'R12i'}, 'a live gRPC or persistent registration must not be expired by a stale heartbeat entry queued for the same address')
 
 
@@ -381,3 +382,68 @@ def r12l(ck, fb):
                        '(healthyOnly=false) does not get the unhealthy ones' % (rv['variant'], cfg.fmt_desc(cfg.describe_operand(b, op)) if hasattr(cfg, 'fmt_desc') else 'a value not derived from it', carriers[0][1].split('::')[-1]),
                        'flag derived from healthy_only')
     ck.floor('R12l', 'query commands built from a request with a healthy-only flag', n, 2)
+
+
+REG_FIELDS = ('weight', 'enabled', 'ephemeral')
+
+
+def r12m(ck, fb):
+    ck.rule('R12m', 'a registration field the request carries reaches the instance: wherever a naming Instance is built in a function that has a '
+                    'request struct in scope (a local of a struct type other than Instance with a weight / enabled / ephemeral field), each such '
+                    'field of the request flows into the same field of the Instance (in the constructor or by a later assignment in that '
+                    'function). The heartbeat request (BeatInfo) parses weight; an instance that is registered by its heartbeat - unknown to the '
+                    'server after an expiry or a restart - must carry it')
+    INST = 'rnacos::naming::model::Instance'
+    n = 0
+    for b in sorted(fb.bodies.values(), key=lambda x: x.name):
+        if '::tests::' in b.name or '::test' in b.name.split('::')[-1]:
+            continue
+        aggs = b.aggregates('^' + re.escape(INST) + '$')
+        if not aggs:
+            continue
+        carriers = {}
+        for l in range(len(b.rec.get('locals', []))):
+            ty = (b.local_ty(l) or '').lstrip('&').replace('mut ', '')
+            if ty == INST or ty not in fb.adts:
+                continue
+            a = fb.adts[ty]
+            if not a.get('variants') or len(a['variants']) != 1:
+                continue
+            fs = [f[0] for f in a['variants'][0]['fields']]
+            have = [f for f in REG_FIELDS if f in fs]
+            if have and ty.startswith('rnacos::'):
+                carriers[ty] = have
+        if not carriers:
+            continue
+        for ty, have in sorted(carriers.items()):
+            for f in have:
+                n += 1
+                ck.analysed(b)
+                t = Taint(b, place_src=lambda p, f=f, ty=ty: any(o == ty and ff == f for (o, ff) in _owners(p)))
+                ok = False
+                for (i, j, st) in aggs:
+                    rv = st['rv']
+                    if f in rv['fields'] and t.op_tainted(rv['ops'][rv['fields'].index(f)]):
+                        ok = True
+                for (o, ff, bb, st) in b.field_writes():
+                    if o == INST and ff == f and st.get('rv') is not None and any(t.op_tainted(x) for x in rv_ops(st['rv'])):
+                        ok = True
+                ck.require(ok, 'R12m', 'carries:%s.%s:%s' % (ty.split('::')[-1], f, b.name.split('rnacos::')[-1].replace('::{closure#0}', '')),
+                           b.where(aggs[0][0]),
+                           '%s has a %s field but the Instance built here does not get it: an instance registered through this request (a heartbeat '
+                           'for an instance the server does not know - expired, or the server restarted) is stored with the default instead of the '
+                           '%s the client sent' % (ty.split('::')[-1], f, f), '%s flows into Instance.%s' % (f, f))
+    ck.floor('R12m', 'request fields to carry into an Instance', n, 4)
+
+
+def _owners(p):
+    from rn.facts import pl_field_owners
+    try:
+        return pl_field_owners(p)
+    except Exception:
+        return []
+
+
+def rv_ops(rv):
+    from rn.facts import rv_operands
+    return rv_operands(rv)
